@@ -132,6 +132,13 @@ pub async fn run_socket_worker(
     let mut incoming = listener.incoming();
 
     while let Some(stream) = incoming.next().await {
+        #[cfg(feature = "verif")]
+        if let aquatic_common::verif::ProbeAction::Return =
+            aquatic_common::verif::probe("ws:socket:accept", worker_index as u64)
+        {
+            return Ok(());
+        }
+
         match stream {
             Err(err) => {
                 ::log::error!("accept connection: {:#}", err);
@@ -180,6 +187,9 @@ pub async fn run_socket_worker(
                         control_message_senders,
                         connection_handles
                     ) async move {
+                        #[cfg(feature = "verif")]
+                        aquatic_common::verif::probe("ws:socket:conn", worker_index as u64);
+
                         let runner = ConnectionRunner {
                             config,
                             access_list,
